@@ -72,6 +72,41 @@ def setup(C):
     C.hooks.rewind_fn = '_advance_parsing'
 
 
+def rewind_clause(rep, mod, tag, prop='C07'):
+    lay = Layout(mod)
+    expecting_field = 1
+    tasks = []
+    for f in ENTRIES:
+        need(f in mod.functions, '%s: %s not found' % (prop, f))
+        for lb in runner.labels_for(mod, f):
+            if lb.startswith('err'):
+                continue
+            tasks.append((f, lb, {'compact': ('_process_one',), 'setup': setup, 'weight': 10}))
+    results = runner.run(mod, tasks, hooks_cls=RHooks, post=post)
+    n = 0
+    for r in results:
+        for e in r['extra']:
+            if e[0] == 'maybe':
+                rep.ob(False, '_advance_parsing:REWIND:direction', '%s a store to the cursor at %s may move it backwards by an unknown amount (%s -> %s)' % (prop, e[1], e[2], e[3]), '')
+                continue
+            loc, val, head, exact, rc, name_written, flags_val, path = e
+            n += 1
+            ctx = '%s[%s] %s' % (r['fn'], r['label'], tag)
+            pth = 'path:\n  ' + '\n  '.join(path)
+            rep.ob(exact, '_advance_parsing:REWIND:cursor',
+                   '%s overshoot rewind at %s leaves the cursor at %s, not at the start of the overshot field (%s): a failed lookup must re-read at most '
+                   'the one name it overshot (%s)' % (prop, loc, val, head, ctx), pth,
+                   sample={'rewind_at': loc, 'cursor_after': val, 'cursor_at_iteration_head': head, 'context': ctx})
+            rep.ob(rc == 0, '_advance_parsing:REWIND:ret', '%s the overshooting step returns %r instead of false (%s)' % (prop, rc, ctx), pth)
+            if prop == 'C07':
+                rep.ob(flags_val == expecting_field, '_advance_parsing:REWIND:flags',
+                       'C07 after the rewind at %s the level is not restored to "expecting a field" (flags = %r) (%s)' % (loc, flags_val, ctx), pth)
+                rep.ob(not name_written, '_advance_parsing:REWIND:name',
+                       'C07 the overshot name is recorded as the current name before the rewind at %s (%s)' % (loc, ctx), pth)
+    need(n >= 2, '%s: the rewind of an overshooting lookup was not observed (only %d events)' % (prop, n))
+    return n
+
+
 def run(rep, tier):
     cfgs = [('print.lp64', ('BINSON_PARSER_WITH_PRINT',), None)]
     if tier == 'thorough':
@@ -80,36 +115,7 @@ def run(rep, tier):
         for (tag, defs, target) in cfgs:
             lib, raws = sc.lib_ir(tag, defs=defs, target=target)
             mod = irload.load(lib)
-            lay = Layout(mod)
-            expecting_field = 1
-            tasks = []
-            for f in ENTRIES:
-                need(f in mod.functions, 'C07: %s not found' % f)
-                for lb in runner.labels_for(mod, f):
-                    if lb.startswith('err'):
-                        continue
-                    tasks.append((f, lb, {'compact': ('_process_one',), 'setup': setup, 'weight': 10}))
-            results = runner.run(mod, tasks, hooks_cls=RHooks, post=post)
-            n = 0
-            for r in results:
-                for e in r['extra']:
-                    if e[0] == 'maybe':
-                        rep.ob(False, '_advance_parsing:REWIND:direction', 'C07 a store to the cursor at %s may move it backwards by an unknown amount (%s -> %s)' % (e[1], e[2], e[3]), '')
-                        continue
-                    loc, val, head, exact, rc, name_written, flags_val, path = e
-                    n += 1
-                    ctx = '%s[%s] %s' % (r['fn'], r['label'], tag)
-                    pth = 'path:\n  ' + '\n  '.join(path)
-                    rep.ob(exact, '_advance_parsing:REWIND:cursor',
-                           'C07 overshoot rewind at %s leaves the cursor at %s, not at the start of the overshot field (%s) (%s)' % (loc, val, head, ctx), pth,
-                           sample={'rewind_at': loc, 'cursor_after': val, 'cursor_at_iteration_head': head, 'context': ctx})
-                    rep.ob(rc == 0, '_advance_parsing:REWIND:ret', 'C07 the overshooting step returns %r instead of false (%s)' % (rc, ctx), pth)
-                    rep.ob(flags_val == expecting_field, '_advance_parsing:REWIND:flags',
-                           'C07 after the rewind at %s the level is not restored to "expecting a field" (flags = %r) (%s)' % (loc, flags_val, ctx), pth)
-                    rep.ob(not name_written, '_advance_parsing:REWIND:name',
-                           'C07 the overshot name is recorded as the current name before the rewind at %s (%s)' % (loc, ctx), pth)
-            need(n >= 2, 'C07: the rewind of an overshooting lookup was not observed (only %d events)' % n)
-            rep.coverage.setdefault('rewind_events', {})[tag] = n
+            rep.coverage.setdefault('rewind_events', {})[tag] = rewind_clause(rep, mod, tag, 'C07')
     rep.coverage.update({
         'rule': 'on every abstract path through the overshoot branch: cursor after the rewind == cursor at the head of the iteration that read the name; '
                 'level flags == EXPECTING_FIELD; current_name not stored in that iteration; the step returns false',
